@@ -3,7 +3,6 @@ package main
 import (
 	"fmt"
 	"go/types"
-	"sort"
 	"strings"
 
 	"golang.org/x/tools/go/ssa"
@@ -62,7 +61,7 @@ func (f *Frame) doCall(st *State, site ssa.CallInstruction, common *ssa.CallComm
 		}
 		// devirtualise on a known dynamic type
 		if recv.Tag.C != nil && recv.Tag.C.Sign() != 0 {
-			dt := c.W.tagTypes[int(recv.Tag.C.Int64())]
+			dt := c.W.tagType(int(recv.Tag.C.Int64()))
 			callee := c.W.prog.LookupMethod(dt, common.Method.Pkg(), common.Method.Name())
 			if callee != nil {
 				var r *Val
@@ -77,13 +76,8 @@ func (f *Frame) doCall(st *State, site ssa.CallInstruction, common *ssa.CallComm
 		// solver-aided devirtualisation: a dynamic type the assumptions pin down
 		if recv.Tag.C == nil {
 			iface, _ := common.Value.Type().Underlying().(*types.Interface)
-			var ids []int
-			for id := range c.W.tagTypes {
-				ids = append(ids, id)
-			}
-			sort.Ints(ids)
-			for _, id := range ids {
-				dt := c.W.tagTypes[id]
+			for _, id := range c.W.tagIDs() {
+				dt := c.W.tagType(id)
 				if iface == nil || !types.Implements(dt, iface) {
 					continue
 				}
